@@ -148,7 +148,8 @@ def replay_file(ctx, path, kinds, module, replayer, set_consts=(), raw_consts=()
     r = getattr(mod, replayer[1])(sg, **(rp.get("rkw") or {}))
 
     def expected(i):
-        return table[prefix_key(hist[:i])]["obs"]
+        o = table.get(prefix_key(hist[:i]))
+        return None if o is None else o["obs"]      # None: the specification (this variant) has no such behaviour
     divs = [d for d in r.run(hist, expected, c) if d[0] in kinds]
     for d in divs:
         print("DIVERGENCE", d)
